@@ -29,6 +29,7 @@ const (
 	VKVerr1               // bare *VerifyError, soft
 	VKWrap0               // wrapped *VerifyError, hard
 	VKWrap1               // wrapped *VerifyError, soft
+	VKNilVerr             // a typed-nil *VerifyError inside the error interface: "no error" written the wrong way round
 	VKShared              // ONE package-level *VerifyError (hard) returned by every call, as header types with sentinel errors do
 )
 
@@ -125,6 +126,9 @@ func scripted(vk uint8) error {
 		return fmt.Errorf("vhdr wrap: %w", &header.VerifyError{Reason: ErrScripted})
 	case VKWrap1:
 		return fmt.Errorf("vhdr wrap: %w", &header.VerifyError{Reason: ErrScripted, SoftFailure: true})
+	case VKNilVerr:
+		var ve *header.VerifyError
+		return ve
 	case VKShared:
 		return SharedVerifyError
 	}
